@@ -15,7 +15,10 @@ import (
 
 func init() { runners["C17"] = runC17; runners["C16"] = runC16 }
 
-var c17Cells = []string{"a", "b c", "", " ", "`x|y`", "x\\|y", "`a\\|b`", "*e*", "[l](u)", "\\", "`", "|", "-", ":-", "<b>", "&amp;", "あ"}
+var c17Cells = []string{"a", "b c", "", " ", "`x|y`", "x\\|y", "`a\\|b`", "*e*", "[l](u)", "\\", "`", "|", "-", ":-", "<b>", "&amp;", "あ",
+	// runs of one to four backslashes at the end of a cell (in front of the separator), inside a
+	// cell in front of a pipe, in code spans
+	"a\\\\", "\\\\", "a\\\\\\", "\\\\\\\\", "x\\\\|y", "x\\\\\\|y", "`a\\\\|b`", "`a\\\\\\|b`", "\\ ", "a\\ "}
 var c17Delims = []string{"-", "--", ":-", "-:", ":-:", ":--:", " - ", "---", "=", ":", "", "-x", ":-:-"}
 
 func c17Row(r *RNG, n int, cells []string) string {
